@@ -26,12 +26,12 @@ Definition is_space (b : byte) : bool :=
   match b with " "%byte | x0a | x0d | x09 => true | _ => false end.
 
 Definition flush (cur : bytes) (acc : list tok) : list tok :=
-  match cur with [] => acc | _ => TAtom (rev cur) :: acc end.
+  match cur with [] => acc | _ => TAtom (frev cur) :: acc end.
 
 (* acc and cur are reversed *)
 Fixpoint lex (s : bytes) (cur : bytes) (acc : list tok) : list tok :=
   match s with
-  | [] => rev (flush cur acc)
+  | [] => frev (flush cur acc)
   | b :: r =>
       match b with
       | "("%byte => lex r [] (TOpen :: flush cur acc)
@@ -81,7 +81,7 @@ Fixpoint parse_toks (ts : list tok) (stack : list (list val)) : option val :=
   | TOpen :: r => parse_toks r ([] :: stack)
   | TClose :: r =>
       match stack with
-      | top :: next :: rest => parse_toks r ((VL (rev top) :: next) :: rest)
+      | top :: next :: rest => parse_toks r ((VL (frev top) :: next) :: rest)
       | _ => None
       end
   | TAtom a :: r =>
